@@ -238,9 +238,19 @@ func (e *Env) Panics() string {
 }
 
 func (e *Env) Close() {
-	e.Srv.CloseClientConnections()
-	e.Srv.Close()
-	e.Proxy.Destroy()
+	// httptest.Server.Close waits for running handlers; a handler that hangs inside the proxy (which is
+	// what some checks are looking for) must not take the harness down with it: abandon it after 3 s
+	done := make(chan struct{})
+	go func() {
+		e.Srv.CloseClientConnections()
+		e.Srv.Close()
+		e.Proxy.Destroy()
+		close(done)
+	}()
+	select {
+	case <-done:
+	case <-time.After(3 * time.Second):
+	}
 	e.cancel()
 	if tr, ok := http.DefaultTransport.(*http.Transport); ok {
 		tr.CloseIdleConnections()
